@@ -9,7 +9,9 @@ Pipeline (spec/Duration.tla is the oracle, spec/DurationTrace.tla the trace moni
   2. TLC, machine "parse": library parser and standard parser in lock step over every string
      <= MaxLen over the alphabet; invariants AcceptSameAsStd / ResultWellFormed / RejectIsFinal;
      the dumped graph is the acceptance/value table.
-  3. The helpers live in an internal package: a test file (harness/overlay/c20_times_test.go.txt)
+  3. TLC, machine "hist": the tree of all call histories <= MaxCalls; invariants Retained /
+     TextIsValue / HistoryFree.
+  4. The helpers live in an internal package: a test file (harness/overlay/c20_times_test.go.txt)
      is injected with `go test -c -overlay` (nothing is written to the repository) and
        walk : every string spelled by a path of graph (2) goes through ParseDuration and
               time.ParseDuration; observations grouped by graph node are compared with the
@@ -18,6 +20,17 @@ Pipeline (spec/Duration.tla is the oracle, spec/DurationTrace.tla the trace moni
               formatted in both styles (a panic is attributed to its cell), the text projected
               to symbols and parsed back; TLC validates the records (DurationTrace);
        parse: boundary strings + seeded random grammar strings; TLC validates the records.
+       hist : HISTORIES of calls (machine "hist": a returned text is a value).  Every maximal
+              history of the TLC-explored tree (HFormat / HParse / HParseLit / HDrop over HCells,
+              both styles, repeated values) plus seeded random long histories over the cell space
+              and int64 values (interleaved styles, repeats, "hoarding" many live texts) are
+              executed; after EVERY call the injected test looks again at every text it still
+              holds (the text now, the library parser on it now); TLC validates each history
+              (DurationTrace, keys hist:*).  A witness run with Aliased = TRUE (shared scratch
+              handed out without copying) must violate Retained.
+       conc : the same histories run by several goroutines at once; each history's records are
+              compared with the sequential ones, histories that differ are judged by TLC again;
+              once more with a -race build (a reported data race inside the helpers is a finding).
      Strings outside the model's arithmetic (long digit runs, 64-bit overflow thresholds) are
      judged by the concrete comparison with time.ParseDuration only (day unit: against the same
      string with the day term rewritten to hours).
@@ -44,19 +57,34 @@ SYM_BYTES["greek"] = [0xCE, 0xBC]
 X_CANDS = [[ord("x")], [32], [ord("e")], [ord("D")], [0xC2], [0xFF], [0], [ord(",")], [0xCE], [ord("_")], [ord("S")]]
 
 
+def _cell(neg=False, d=0, h=0, m=0, s=0, ms=0, us=0, ns=0):
+    return dict(neg=neg, d=d, h=h, m=m, s=s, ms=ms, us=us, ns=ns)
+
+
+# cells of the hist machine (members of the cell space of both tiers): the longest text (MinInt64),
+# a 3-byte one, a middle one with different texts per style, zero, a negative fraction
+HCELLS = [_cell(True, 106751, 23, 47, 16, 854, 775, 808), _cell(ns=1), _cell(d=1, h=1, s=1, ns=1), _cell(),
+          _cell(True, ms=1, us=1)]
+HLITS = [["1", "d"], ["-", "1", ".", "5", "x"]]
+
+
 def config(quick):
     if quick:
         return dict(
             alphabet=["+", "-", "0", "1", "9", ".", "d", "h", "m", "s", "n", "u", "micro", "x"], maxlen=5,
             cellsets=dict(d=[0, 1, 106751], h=[0, 1, 23], m=[0, 1, 47], s=[0, 1, 16, 59], ms=[0, 1, 854],
                           us=[0, 1, 775], ns=[0, 1, 807, 808, 999]),
-            rand_i64=3000, rand_parse=4000, big=3000, chunk=7000)
+            rand_i64=3000, rand_parse=4000, big=3000, chunk=7000,
+            hcells=HCELLS[:4], hlits=HLITS[:1], maxcalls=3, hist_mixed=40, hist_len=(25, 60), hist_hoard=(3, 72),
+            hist_pairs=150, goroutines=8, hist_chunk=16000)
     return dict(
         alphabet=["+", "-", "0", "1", "5", "9", ".", "d", "h", "m", "s", "n", "u", "micro", "greek", "x"], maxlen=6,
         cellsets=dict(d=[0, 1, 9, 10, 99999, 100000, 106750, 106751], h=[0, 1, 9, 10, 23], m=[0, 1, 10, 47, 59],
                       s=[0, 1, 16, 59], ms=[0, 1, 10, 100, 854, 999], us=[0, 1, 100, 775, 999],
                       ns=[0, 1, 99, 807, 808, 999]),
-        rand_i64=60000, rand_parse=60000, big=60000, chunk=40000)
+        rand_i64=60000, rand_parse=60000, big=60000, chunk=40000,
+        hcells=HCELLS, hlits=HLITS, maxcalls=4, hist_mixed=600, hist_len=(30, 120), hist_hoard=(6, 300),
+        hist_pairs=3000, goroutines=16, hist_chunk=60000)
 
 
 WITNESS_CELLS = dict(d=[0, 106751], h=[23], m=[47], s=[16], ms=[854], us=[775], ns=[807, 808])
@@ -64,7 +92,13 @@ WITNESS_CELLS = dict(d=[0, 106751], h=[23], m=[47], s=[16], ms=[854], us=[775], 
 
 def consts(c, cellsets=None):
     cs = cellsets or c["cellsets"]
-    return dict(Alphabet=set(c["alphabet"]), CellSets={k: set(v) for k, v in cs.items()})
+    return dict(Alphabet=set(c["alphabet"]), CellSets={k: set(v) for k, v in cs.items()},
+                HCells=list(c["hcells"]), HLits=list(c["hlits"]))
+
+
+def plain(c, buflen, machine, aliased=False):
+    return dict(BufLen=buflen, MaxLen=c["maxlen"], Machine='"%s"' % machine, MaxCalls=c["maxcalls"],
+                Aliased="TRUE" if aliased else "FALSE")
 
 
 _lock = threading.Lock()
@@ -101,29 +135,32 @@ def par(*fns):
 
 
 # ------------------------------------------------------------------ the injected test binary
-def build_test(ctx):
+def build_test(ctx, race=False):
     src = os.path.join(ctx.scratch, "c20_times_test.go")
     with open(OVERLAY_SRC) as fh, open(src, "w") as out:
         out.write(fh.read())
-    ov = os.path.join(ctx.scratch, "overlay.json")
+    ov = os.path.join(ctx.scratch, "overlay-race.json" if race else "overlay.json")
     target = os.path.join(vlib.REPO, PKG, "zz_c20_verif_test.go")
     if os.path.exists(target):
         raise Undecided("overlay target exists in the repository: " + target)
     with open(ov, "w") as fh:
         json.dump({"Replace": {target: src}}, fh)
-    binp = os.path.join(ctx.scratch, "times.test")
-    p = subprocess.run(["go", "test", "-c", "-overlay", ov, "-vet=off", "-o", binp, "./" + PKG + "/"],
+    binp = os.path.join(ctx.scratch, "times.race.test" if race else "times.test")
+    p = subprocess.run(["go", "test", "-c"] + (["-race"] if race else []) + ["-overlay", ov, "-vet=off", "-o", binp, "./" + PKG + "/"],
                        cwd=vlib.REPO, env=vlib.goenv(), capture_output=True, text=True)
     if p.returncode != 0 or not os.path.exists(binp):
+        if race:       # the race detector is an extra: without it (no cgo, ...) the check goes on
+            return None
         raise Undecided("building the injected test failed:\n" + p.stdout + p.stderr)
     return binp
 
 
-def run_test(ctx, binp, mode, inp, name, careful=False, timeout=1500):
-    """Returns (rows, died: None | dict(marker=..))."""
+def run_test(ctx, binp, mode, inp, name, careful=False, timeout=1500, env_extra=None):
+    """Returns (rows, died: None | dict(marker=.., rc, tail, complete: the log reached its end))."""
     out = os.path.join(ctx.scratch, name + ".out.ndjson")
     mark = os.path.join(ctx.scratch, name + ".mark")
     env = dict(os.environ, C20_MODE=mode, C20_IN=inp, C20_OUT=out, C20_MARK=mark, C20_CAREFUL="1" if careful else "0")
+    env.update(env_extra or {})
     try:
         p = subprocess.run([binp, "-test.run", "^TestC20Verif$", "-test.timeout", "0"], cwd=ctx.scratch, env=env,
                            capture_output=True, text=True, errors="replace", timeout=timeout)
@@ -143,15 +180,18 @@ def run_test(ctx, binp, mode, inp, name, careful=False, timeout=1500):
     if os.path.exists(mark):
         with open(mark, "rb") as fh:
             marker = fh.read()
-    return rows, dict(marker=marker, rc=None if p is None else p.returncode,
-                      tail=("timeout" if p is None else (p.stdout + p.stderr)[-1500:]))
+    complete = bool(rows) and rows[-1].get("op") == "end"
+    return (rows[:-1] if complete else rows), dict(
+        marker=marker, rc=None if p is None else p.returncode, complete=complete,
+        tail=("timeout" if p is None else (p.stdout + p.stderr)[-1500:]),
+        out="" if p is None else (p.stdout + p.stderr)[:20000])
 
 
 # ------------------------------------------------------------------ TLC runs
 def mc_fmt(ctx, c, buflen, cellsets=None, name="fmt-mc", workers=8, allow_fail=False):
     mc, cfg = gen_mc("MC", "Duration", consts(c, cellsets),
                      ["SPECIFICATION Spec", "INVARIANTS InBuffer RoundTrip StdReads FmtShape", "CHECK_DEADLOCK FALSE"],
-                     plain=dict(BufLen=buflen, MaxLen=c["maxlen"], Machine='"fmt"'))
+                     plain=plain(c, buflen, "fmt"))
     kw = dict(files={"MC.tla": mc, "MC.cfg": cfg}, name=name, workers=workers, timeout=1500)
     return ctx.tlc("MC", "MC.cfg", allow_fail=allow_fail, **kw)
 
@@ -160,7 +200,7 @@ def mc_parse(ctx, c, workers=8):
     mc, cfg = gen_mc("MC", "Duration", consts(c),
                      ["SPECIFICATION Spec", "INVARIANTS AcceptSameAsStd ResultWellFormed", "PROPERTIES RejectIsFinal",
                       "ALIAS ParseAlias", "CHECK_DEADLOCK FALSE"],
-                     plain=dict(BufLen=LIB_BUF + 1, MaxLen=c["maxlen"], Machine='"parse"'))
+                     plain=plain(c, LIB_BUF + 1, "parse"))
     dot = os.path.join(ctx.scratch, "parsegraph")
     r = ctx.tlc("MC", "MC.cfg", files={"MC.tla": mc, "MC.cfg": cfg}, name="parse-mc", workers=workers,
                 timeout=1500, extra=["-dump", "dot,actionlabels", dot])
@@ -209,19 +249,25 @@ def validate(ctx, c, rows, name, cellsets=None):
     """TLC trace validation of projected records. Returns (bad, ood_lines, cover)."""
     keep_f = ("op", "cell", "style", "oor", "panic", "syms", "back")
     keep_p = ("op", "syms", "lib", "std", "panic")
-    slim = [{k: r[k] for k in (keep_f if r["op"] == "fmt" else keep_p)} for r in rows]
+    slim = [slim_hist(r) if r["op"] == "hist" else {k: r[k] for k in (keep_f if r["op"] == "fmt" else keep_p)} for r in rows]
     tp = os.path.join(ctx.scratch, name + ".trace.ndjson")
     write_ndjson(tp, slim)
     tc = consts(c, cellsets)
     tc["TraceFile"] = "trace.ndjson"
     mct, cfg = gen_mc("MCT", "DurationTrace", tc, ["SPECIFICATION TSpec", "INVARIANTS Done", "CHECK_DEADLOCK FALSE"],
-                      plain=dict(BufLen=LIB_BUF, MaxLen=c["maxlen"], Machine='"trace"'))
+                      plain=plain(c, LIB_BUF, "trace"))
     r = ctx.tlc("MCT", "MCT.cfg", files={"MCT.tla": mct, "MCT.cfg": cfg}, copy={tp: "trace.ndjson"}, workers=1,
                 name=name, timeout=2400, heap="3g")
     bad, ood, cover = r.prints("bad"), r.prints("ood"), r.prints("cover")
     if len(bad) != 1 or len(ood) != 1 or len(cover) != 1:
         raise Undecided("trace validation %s did not reach the end of the log:\n%s" % (name, r.out[-3000:]))
     return sorted(bad[0], key=lambda b: b["line"]), sorted(ood[0]), cover[0]
+
+
+def slim_hist(r):
+    cl, rt = r["call"], r["ret"]
+    return dict(op="hist", h=r["h"], k=r["k"], call={k: cl[k] for k in ("o", "cell", "style", "oor", "j", "syms")},
+                ret={k: rt[k] for k in ("panic", "syms", "res")}, held=[dict(syms=x["syms"], back=x["back"]) for x in r["held"]])
 
 
 def validate_chunks(ctx, c, rows, name, chunk, cellsets=None, parallel=5):
@@ -605,6 +651,284 @@ def step_parse(ctx, c, binp, rng):
     bump(ctx, evaluations=n, concrete_big_strings=n, concrete_big_accepted=sum(1 for r in brows if r["lib"]["ok"]))
 
 
+# ------------------------------------------------------------------ histories of calls
+_hedge = re.compile(r'^(-?\d+) -> (-?\d+) \[label="(H\w+\(.*?\))",color')
+
+
+def mc_hist(ctx, c, workers=4):
+    """Exhaustive run of machine "hist"; returns (result, list of maximal histories as op lists)."""
+    mc, cfg = gen_mc("MC", "Duration", consts(c),
+                     ["SPECIFICATION Spec", "INVARIANTS Retained TextIsValue HistoryFree", "ALIAS HistAlias",
+                      "CHECK_DEADLOCK FALSE"], plain=plain(c, LIB_BUF + 1, "hist"))
+    dot = os.path.join(ctx.scratch, "histgraph")
+    r = ctx.tlc("MC", "MC.cfg", files={"MC.tla": mc, "MC.cfg": cfg}, name="hist-mc", workers=workers, timeout=1500,
+                extra=["-dump", "dot,actionlabels", dot])
+    nodes, edges, inits = set(), [], []
+    with open(dot + ".dot", errors="replace") as fh:
+        for line in fh:
+            m = _hedge.match(line)
+            if m:
+                edges.append((m.group(1), m.group(3).replace('\\"', '"'), m.group(2)))
+                continue
+            m = _nodehead.match(line)
+            if m:
+                nodes.add(m.group(1))
+                if '",style = filled' in line:
+                    inits.append(m.group(1))
+    os.remove(dot + ".dot")
+    if len(inits) != 1 or not edges:
+        raise Undecided("hist graph dump has %d initial states / %d edges" % (len(inits), len(edges)))
+    kids = {}
+    for src, act, dst in edges:
+        kids.setdefault(src, []).append((act, dst))
+    if len(edges) != len(nodes) - 1:
+        raise Undecided("hist graph is not the tree of histories: %d nodes, %d edges" % (len(nodes), len(edges)))
+    hists, stack = [], [(inits[0], [])]
+    while stack:
+        node, path = stack.pop()
+        if node not in kids:
+            if len(path) != c["maxcalls"]:
+                raise Undecided("hist graph: a maximal history has %d calls" % len(path))
+            hists.append(path)
+            continue
+        for act, dst in kids[node]:
+            stack.append((dst, path + [hist_op(c, act)]))
+    return r, hists
+
+
+def hist_op(c, label):
+    name, args = vlib.parse_action(label)
+    if name == "HFormat":
+        return dict(o="fmt", cell=c["hcells"][args[0] - 1], style=args[1])
+    if name == "HParse":
+        return dict(o="parse", j=args[0])
+    if name == "HDrop":
+        return dict(o="drop", j=args[0])
+    if name == "HParseLit":
+        return dict(o="lit", b=[b for sym in c["hlits"][args[0] - 1] for b in (X_CANDS[0] if sym == "x" else SYM_BYTES[sym])])
+    raise Undecided("unknown action in the hist graph: " + label)
+
+
+def hist_witness(ctx, c):
+    """Shared scratch handed out without copying: the model must lose a retained text (non-vacuity of Retained)."""
+    mc, cfg = gen_mc("MC", "Duration", consts(c), ["SPECIFICATION Spec", "INVARIANTS Retained", "CHECK_DEADLOCK FALSE"],
+                     plain=plain(c, LIB_BUF + 1, "hist", aliased=True))
+    r = ctx.tlc("MC", "MC.cfg", files={"MC.tla": mc, "MC.cfg": cfg}, name="hist-witness", workers=1, timeout=600, allow_fail=True)
+    if r.invariant_violated != ["Retained"]:
+        raise Undecided("witness run (Aliased) did not violate exactly Retained: %s\n%s" % (r.invariant_violated, r.out[-2000:]))
+    ctx.extra["witness_aliased_scratch"] = "Retained violated (a text that aliases a shared scratch array is lost by the next formatting call)"
+
+
+HIST_LITS = ["1d", "1.5h", "x", "", "-1d12h", "1h1d", "7d7h7m7s7ms7µs7ns", "0", "106751d23h47m16s854ms775µs807ns", "1s "]
+
+
+def random_histories(rng, c):
+    """Seeded long histories: interleaved styles, repeated values, parses of retained texts in between,
+    unrelated parses, drops; 'hoarders' keep very many texts alive; 'pairs' = two live results of all style pairs."""
+    prod = cell_product(c["cellsets"])
+    prod = [p for p in prod if in_range(p)]
+    pool = rng.sample(prod, min(len(prod), 400)) + random_i64(rng, 400) + [dict(cell=x) for x in HCELLS]
+    styles = ["compact", "frac"]
+
+    def fmt(v, sty=None):
+        return dict(dict(o="fmt", style=sty or rng.choice(styles)), **v)
+
+    out = []
+    for _ in range(c["hist_mixed"]):
+        ops, held, used = [], 0, []
+        cap = rng.choice([1, 2, 3, 4, 6, 8, 12, 16])
+        for _ in range(rng.randint(*c["hist_len"])):
+            r = rng.random()
+            if held > cap or (held and r < 0.08):
+                ops.append(dict(o="drop", j=rng.randint(1, held)))
+                held -= 1
+            elif r < 0.60 or not held:
+                v = rng.choice(used) if used and rng.random() < 0.3 else rng.choice(pool)
+                used.append(v)
+                ops.append(fmt(v))
+                held += 1          # (cells outside int64 are not formatted by the executor; none is in the pool)
+            elif r < 0.90:
+                ops.append(dict(o="parse", j=rng.randint(1, held)))
+            else:
+                ops.append(dict(o="lit", b=list(rng.choice(HIST_LITS).encode("utf-8"))))
+        out.append(ops)
+    n_hoard, size = c["hist_hoard"]
+    for _ in range(n_hoard):
+        vals = [rng.choice(pool) for _ in range(size // 2)]
+        vals += [rng.choice(vals) for _ in range(size - len(vals))]          # repeated values
+        rng.shuffle(vals)
+        out.append([fmt(v) for v in vals] + [dict(o="parse", j=j) for j in rng.sample(range(1, size + 1), 6)])
+    for _ in range(c["hist_pairs"]):
+        a, b = rng.choice(pool), rng.choice(pool)
+        if rng.random() < 0.2:
+            b = a
+        out.append([fmt(a), fmt(b), dict(o="parse", j=1), dict(o="parse", j=2), fmt(a), dict(o="parse", j=rng.randint(1, 3))])
+    return out
+
+
+def in_range(v):
+    if "i64" in v:
+        return True
+    cl = v["cell"]
+    mag = ((((cl["d"] * 24 + cl["h"]) * 60 + cl["m"]) * 60 + cl["s"]) * 10**9 + cl["ms"] * 10**6 + cl["us"] * 1000 + cl["ns"])
+    return (mag <= MAXI or (cl["neg"] and mag == -MINI)) and not (cl["neg"] and mag == 0)
+
+
+def hist_chunks(rows, budget):
+    """Whole histories per chunk; cost of a record = 1 + retained texts looked at."""
+    chunks, cur, cost = [], [], 0
+    for r in rows:
+        if r["k"] == 1 and cost >= budget:
+            chunks.append(cur)
+            cur, cost = [], 0
+        cur.append(r)
+        cost += 1 + len(r["held"])
+    if cur:
+        chunks.append(cur)
+    return chunks
+
+
+def validate_hist(ctx, c, rows, name, budget, parallel=5):
+    """TLC judges recorded histories; returns [(row, bad record)]."""
+    parts = hist_chunks(rows, budget)
+    found = []
+    for g in range(0, len(parts), parallel):
+        grp = list(range(g, min(g + parallel, len(parts))))
+        rs = par(*[(lambda j=j: validate(ctx, c, parts[j], "%s-%d" % (name, j), WITNESS_CELLS)) for j in grp])
+        for j, (bad, _, _) in zip(grp, rs):
+            found += [(parts[j][b["line"] - 1], b) for b in bad]
+    return found
+
+
+def describe_hist(row):
+    cl, rt = row["call"], row["ret"]
+    if cl["o"] == "fmt":
+        call = "SmartDurationStringEx(%s ns, frac=%s) %s" % (cl["i64"], cl["style"] == "frac",
+                                                             "PANIC " + rt["pmsg"] if rt["panic"] else "returned %r" % rt["text"])
+    elif cl["o"] == "parse":
+        call = "ParseDuration(retained text #%d) = %s" % (cl["j"], "PANIC " + rt["pmsg"] if rt["panic"] else json.dumps(rt["res"]))
+    elif cl["o"] == "lit":
+        call = "ParseDuration(%r) = %s" % (text_of(cl["b"]), "PANIC " + rt["pmsg"] if rt["panic"] else json.dumps(rt["res"]))
+    else:
+        call = "the caller drops retained text #%d" % cl["j"]
+    return "call %d of the history: %s; retained texts as the caller sees them now: %s" % (
+        row["k"], call, json.dumps([[x["text"], x["back"]] for x in row["held"]], ensure_ascii=False)[:700])
+
+
+def report_hist(ctx, found, hists, h0, variant, g=0, race=False):
+    seen = set()
+    for row, b in found:
+        if row["h"] in seen and not b["key"].startswith("spec:"):
+            continue               # one finding per history: later records of a broken history are consequences
+        seen.add(row["h"])
+        if b["key"].startswith("spec:"):
+            raise Undecided("the specification disagrees with the harness on a history record (%s): %s; expected %s" % (
+                b["key"], json.dumps(row, ensure_ascii=False)[:800], b["expected"][:800]))
+        key = b["key"] + (":concurrent" if variant != "sequential" else "")
+        finding(ctx, key, "%s history: %s ; specification: %s" % (variant, describe_hist(row), b["expected"][:700]),
+                dict(kind="hist", history=hists[row["h"] - h0], goroutines=g, race=race))
+
+
+def hist_input(ctx, hists, name, h0=1):
+    ip = os.path.join(ctx.scratch, name + ".in.ndjson")
+    write_ndjson(ip, [dict(h=h0 + i, ops=ops) for i, ops in enumerate(hists)])
+    return ip
+
+
+def by_history(rows):
+    out = {}
+    for r in rows:
+        out.setdefault(r["h"], []).append(r)
+    return out
+
+
+def run_sequential(ctx, c, binp, hists, name):
+    ip = hist_input(ctx, hists, name)
+    rows, dead = run_test(ctx, binp, "hist", ip, name)
+    if dead:
+        k = int.from_bytes(dead["marker"][:8], "little") if len(dead["marker"]) >= 8 else 0
+        if not k:
+            raise Undecided("hist executor died outside a call: " + dead["tail"])
+        for ops in hists:
+            if k <= len(ops):
+                died(ctx, "history, call %d (%s)" % (k, json.dumps(ops[k - 1])), dead, dict(kind="hist", history=ops, goroutines=0, race=False),
+                     "hist:crash")
+                return None, ip
+            k -= len(ops)
+        raise Undecided("hist executor died after the last call: " + dead["tail"])
+    if len(rows) != sum(len(h) for h in hists):
+        raise Undecided("hist executor returned %d records for %d calls" % (len(rows), sum(len(h) for h in hists)))
+    return rows, ip
+
+
+def run_concurrent(ctx, c, binp, ip, hists, seq_rows, name, race=False):
+    """The same histories, several goroutines at once.  Returns number of histories compared."""
+    g = c["goroutines"]
+    rows, dead = run_test(ctx, binp, "conc", ip, name, env_extra=dict(C20_G=str(g)))
+    variant = "concurrent (%d goroutines%s)" % (g, ", -race build" if race else "")
+    if dead:
+        racy = "DATA RACE" in dead["out"]
+        if racy and "internal/times." in dead["out"]:
+            at = dead["out"].find("WARNING: DATA RACE")
+            finding(ctx, "hist:race", "the race detector reports a data race inside the duration helpers when %d goroutines "
+                    "format/parse their own values: %s" % (g, dead["out"][at:at + 1500]),
+                    dict(kind="hist", history=hists[-1], goroutines=g, race=True))
+        if not dead["complete"]:
+            if racy:
+                return 0
+            died(ctx, variant, dead, dict(kind="hist", history=hists[-1], goroutines=g, race=race), "hist:crash:concurrent")
+            return 0
+        if not racy and dead["rc"] != 0:
+            raise Undecided("%s run failed: %s" % (variant, dead["tail"]))
+    if len(rows) != len(seq_rows):
+        raise Undecided("%s run returned %d records, the sequential one %d" % (variant, len(rows), len(seq_rows)))
+    seq, con = by_history(seq_rows), by_history(rows)
+    differ = [h for h in seq if con.get(h) != seq[h]]
+    if differ:
+        # the specification judges every history that did not come out as in the sequential run
+        rerun = [r for h in differ[:400] for r in con[h]]
+        found = validate_hist(ctx, c, rerun, name + "-judge", c["hist_chunk"])
+        report_hist(ctx, found, hists, 1, variant, g, race)
+        bump(ctx, **{name + "_histories_differing_from_sequential": len(differ),
+                     name + "_differing_records_rejected_by_spec": len(found)})
+    return len(seq)
+
+
+def step_hist(ctx, c, binp, race_bin, tree, rng):
+    rnd = [h for h in random_histories(rng, c) if all(o["o"] != "fmt" or in_range(o) for o in h)]
+    hists = tree + rnd
+    rows, ip = run_sequential(ctx, c, binp, hists, "hist")
+    if rows is None:
+        return
+    found = validate_hist(ctx, c, rows, "hist", c["hist_chunk"])
+    report_hist(ctx, found, hists, 1, "sequential")
+    n_conc = run_concurrent(ctx, c, binp, ip, hists, rows, "conc")
+    n_race = 0
+    if race_bin:
+        # a slice of the tree + all random histories (the detector is slow)
+        sub = tree[::max(1, len(tree) // 1500)] + rnd
+        rows2, ip2 = run_sequential(ctx, c, binp, sub, "hist-r")
+        if rows2 is not None:
+            n_race = run_concurrent(ctx, c, race_bin, ip2, sub, rows2, "conc-race", race=True)
+    live2 = set()
+    for h in hists:
+        held = mx = 0
+        for o in h:
+            held += 1 if o["o"] == "fmt" else -1 if o["o"] == "drop" else 0
+            mx = max(mx, held)
+        if mx >= 2:
+            live2.add(json.dumps(h, sort_keys=True))
+    looks = sum(len(r["held"]) for r in rows)
+    bump(ctx, traces=len(hists) + n_conc + n_race, evaluations=len(rows) + looks, nontrivial=len(live2),
+         hist_tree_histories=len(tree), hist_random_histories=len(rnd), hist_calls=len(rows),
+         hist_retained_text_observations=looks, hist_max_live_texts=max([len(r["held"]) for r in rows] or [0]),
+         hist_concurrent_histories=n_conc, hist_goroutines=c["goroutines"],
+         hist_race_build="%d histories, %d goroutines" % (n_race, c["goroutines"]) if race_bin else "not available (go test -c -race failed)")
+    ctx.sample(dict(history=[dict(call=r["call"]["o"], arg=r["call"]["i64"] or r["call"]["j"], style=r["call"]["style"],
+                                  retained=[x["text"] for x in r["held"]]) for r in rows[-6:]]))
+
+
+
 def witness(ctx, c):
     """With the library's array size the model must overrun - and only in the class the known finding names."""
     r = mc_fmt(ctx, c, LIB_BUF, cellsets=WITNESS_CELLS, name="fmt-witness", workers=2, allow_fail=True)
@@ -618,27 +942,36 @@ def run(ctx, replay):
     if replay:
         return do_replay(ctx, c, replay)
     rng = random.Random(ctx.seed * 104729 + 20)
-    binp, rf, _, (rp, graph) = par(lambda: build_test(ctx),
-                            lambda: mc_fmt(ctx, c, LIB_BUF + 1, workers=6),
-                            lambda: witness(ctx, c),
-                            lambda: mc_parse(ctx, c, workers=6))
-    for r in (rf, rp):            # exhaustive runs whose invariants held on the model
+    (binp, race_bin), rf, _, (rp, graph), (rh, tree), _ = par(
+        lambda: (build_test(ctx), build_test(ctx, race=True)),
+        lambda: mc_fmt(ctx, c, LIB_BUF + 1, workers=6),
+        lambda: witness(ctx, c),
+        lambda: mc_parse(ctx, c, workers=6),
+        lambda: mc_hist(ctx, c),
+        lambda: hist_witness(ctx, c))
+    for r in (rf, rp, rh):        # exhaustive runs whose invariants held on the model
         ctx.states += r.distinct
         ctx.transitions += r.generated
+    r1, r2, r3 = [random.Random(rng.random()) for _ in range(3)]      # drawn here: the steps run concurrently
     par(lambda: step_walk(ctx, c, binp, graph),
-        lambda: step_fmt(ctx, c, binp, random.Random(rng.random())),
-        lambda: step_parse(ctx, c, binp, random.Random(rng.random())))
+        lambda: step_fmt(ctx, c, binp, r1),
+        lambda: step_parse(ctx, c, binp, r2),
+        lambda: step_hist(ctx, c, binp, race_bin, tree, r3))
     ctx.assumptions += [
         "float64 rounding of fractions and the 64-bit overflow thresholds are outside TLC's arithmetic: inside the "
         "model's domain (<=9 integer digits, <=9 fraction digits) the exact floor is used and every record is also "
         "checked against time.ParseDuration; outside it only the concrete comparison with time.ParseDuration decides",
         "bytes other than the duration alphabet are one class 'x', concretised per occurrence from a fixed list",
         "the scratch array size %d of dur.go is a constant of the check (witness run)" % LIB_BUF,
+        "histories: the caller's view of a retained text is taken right after every call of the same goroutine; "
+        "concurrent runs are judged per goroutine (the model has no shared state), scheduling is the Go runtime's",
     ]
     return ctx.finish(rule="fmt: every cell of the specification's boundary product x {compact, frac} + seeded random int64 "
                            "values; parse: every string <= MaxLen over the alphabet (paths of the TLC graph) + boundary and "
-                           "seeded random grammar strings; non-trivial = distinct non-zero formatted values and distinct "
-                           "strings the specification accepts",
+                           "seeded random grammar strings; histories: every maximal history of the TLC "
+                           "tree (<= MaxCalls calls over HCells x styles, parse/drop of retained texts) + seeded random long "
+                           "histories, sequential and concurrent; non-trivial = distinct non-zero formatted values, distinct "
+                           "strings the specification accepts and distinct histories with >= 2 texts alive at once",
                       exhaustive=True)
 
 
@@ -677,6 +1010,19 @@ def do_replay(ctx, c, path):
             died(ctx, "ParseDuration(%r)" % text_of(it[1]), dead, rp, "parse:crash")
         else:
             judge_concrete(ctx, [tuple(it)], rows)
+    elif rp["kind"] == "hist":
+        g = int(rp.get("goroutines") or 0)
+        if g:
+            c = dict(c, goroutines=g)
+        hists = [rp["history"]] * (4 * g if g else 1)
+        rows, ip = run_sequential(ctx, c, binp, hists, "r")
+        if rows is not None:
+            report_hist(ctx, validate_hist(ctx, c, rows, "replay", c["hist_chunk"]), hists, 1, "sequential")
+            if g:
+                rb = build_test(ctx, race=True) if rp.get("race") else binp
+                if rb is None:
+                    raise Undecided("no -race build available for this replay")
+                run_concurrent(ctx, c, rb, ip, hists, rows, "r-conc", race=bool(rp.get("race")))
     else:
         raise Undecided("unknown replay kind %r" % rp.get("kind"))
     ctx.traces += 1
